@@ -1,5 +1,5 @@
 (* C20 - property theorems only. *)
-From HV Require Import Prelude C20_Model C20_Check C20_Proofs.
+From HV Require Import Prelude C20_Model C20_Check C20_Proofs C20_Proofs2.
 
 (* The up-front decision (validate_params, then _prepare_coords) accepts exactly
    the inputs meeting every documented requirement. *)
@@ -47,7 +47,52 @@ Example C20_legacy_map_count_refuted :
 Proof. exact legacy_map_count_refuted_l. Qed.
 Print Assumptions C20_legacy_map_count_refuted.
 
+(* The pinned tree applied the chromosome pattern to the whole path (= this model fed
+   with paths instead of file names): a complete map set in maps_chr22/ was refused. *)
+Example C20_legacy_dirname_refuted :
+  front false false (witness_base [[49]] [file_chr1_in_chr22_dir] None) = Reject K_no_maps /\
+  front false false (witness_base [[49]] [file_chr1_name_only] None) = Accept 20.
+Proof. exact legacy_dirname_refuted_l. Qed.
+Print Assumptions C20_legacy_dirname_refuted.
+
 (* WellFormed is satisfiable. *)
 Example C20_wellformed_satisfiable : WellFormed (witness_base [[49]] [file_chr1] (Some (150, 250))).
 Proof. exact wellformed_satisfiable_l. Qed.
 Print Assumptions C20_wellformed_satisfiable.
+
+(* Every deliberate refusal names (through its message class k) a requirement of
+   the property's list that the input really violates. *)
+Theorem C20_reject_names_violation :
+  forall i k, front false false i = Reject k -> clause_of k <> 0 /\ ~ clause (clause_of k) i.
+Proof. exact reject_names_violation_l. Qed.
+Print Assumptions C20_reject_names_violation.
+
+(* Soundness of the boolean checker evaluated on the implementation's behaviour:
+   holds = true means what the property says about this input. *)
+Theorem C20_holds_outcome_sound :
+  forall i o s, holds_outcome i o s = true -> o <> Crash 97 ->
+  (Valid i -> exists ps n, o = Accept ps /\ nsamples i = Some n /\ 10 * n <= ps /\ v_popsize i <= ps /\
+                           s = Completed (2 * n)) /\
+  (~ Valid i -> side_ok_b i = true -> violated i <> [] ->
+   exists k, o = Reject k /\ In (clause_of k) (violated i)).
+Proof. exact holds_outcome_sound_l. Qed.
+Print Assumptions C20_holds_outcome_sound.
+
+Theorem C20_valid_b_spec : forall i, valid_b i = true <-> Valid i.
+Proof. exact valid_b_spec. Qed.
+Print Assumptions C20_valid_b_spec.
+
+(* The command line: a --region whose start exceeds its end is never accepted, with
+   or without --only_breakpoint; a parsed --region restricts the run to its chromosome. *)
+Theorem C20_cli_region_checked :
+  forall base chroms r a c s e only_bp,
+  cli_parse chroms (Some r) = inr a -> a_region a = Some (c, s, e) -> e < s ->
+  forall ps, front false false (with_args base a only_bp) <> Accept ps.
+Proof. exact cli_region_checked_l. Qed.
+Print Assumptions C20_cli_region_checked.
+
+Theorem C20_cli_region_sets_chroms :
+  forall chroms r a, r <> [] -> cli_parse chroms (Some r) = inr a ->
+  exists c s e, a_region a = Some (c, s, e) /\ a_chroms a = [c].
+Proof. exact cli_region_sets_chroms_l. Qed.
+Print Assumptions C20_cli_region_sets_chroms.
